@@ -27,11 +27,13 @@ TIERS = {
     "quick": {"shards": 4, "cases": 600, "timeout": 300, "py_flags_by_shard": {2: ["-O"], 3: ["-OO"]}},
     "thorough": {"shards": 16, "cases": 4000, "timeout": 3000, "py_flags_by_shard": {13: ["-O"], 14: ["-OO"], 15: ["-O"]}},
 }
-FLOORS = {"quick": {"parsers_judged_as_deep_copies_of_a_template": 100,
+FLOORS = {"quick": {"commands_in_one_long_chain": 1200,
+                    "parsers_judged_as_deep_copies_of_a_template": 100,
                     "distinct_nontrivial": 300, "command_option_decisions": 10000, "accepted": 3000, "rejected": 3000,
                     "default_command_vectors": 500, "std_option_vectors": 5000,
                     "graphs_judged_in_an_optimized_interpreter": 1000},
-          "thorough": {"parsers_judged_as_deep_copies_of_a_template": 390,
+          "thorough": {"commands_in_one_long_chain": 1200,
+                       "parsers_judged_as_deep_copies_of_a_template": 390,
                        "distinct_nontrivial": 15000, "command_option_decisions": 600000, "accepted": 200000,
                        "rejected": 200000, "default_command_vectors": 30000, "std_option_vectors": 300000,
                        "graphs_judged_in_an_optimized_interpreter": 10000}}
